@@ -738,4 +738,359 @@ theorem getC_map (ni nj : Nat) (g : Array VV) (f : VV → VV) (hs : g.size = ni 
   rw [this]; rfl
 
 
+/-! ### `detect_cavities`: the class of surface cells is invariant -/
+
+/-- the four values a surface cell can hold during the fill -/
+def isSC : VV → Bool
+  | .surf | .surfWalk1 | .surfWalk2 | .surfNoWalk => true
+  | _ => false
+
+/-- same size and, cell by cell, same "is a surface cell" status -/
+def SameClass (g g' : Array VV) : Prop := g'.size = g.size ∧ ∀ k, isSC (g'.getD k .undef) = isSC (g.getD k .undef)
+
+theorem SameClass.refl (g : Array VV) : SameClass g g := ⟨rfl, fun _ => rfl⟩
+theorem SameClass.trans {g g1 g2 : Array VV} (h1 : SameClass g g1) (h2 : SameClass g1 g2) : SameClass g g2 :=
+  ⟨h2.1.trans h1.1, fun k => (h2.2 k).trans (h1.2 k)⟩
+
+theorem sc_set (g : Array VV) (c : Nat) (v : VV) (h : isSC v = isSC (g.getD c .undef)) : SameClass g (g.setIfInBounds c v) := by
+  refine ⟨by simp, fun k => ?_⟩
+  simp only [Array.getD_eq_getD_getElem?, Array.getElem?_setIfInBounds]
+  by_cases e : c = k
+  · subst e
+    rw [if_pos rfl]
+    by_cases hc : c < g.size
+    · rw [if_pos hc]; simp only [Option.getD_some]
+      rw [h, Array.getD_eq_getD_getElem?]
+    · rw [if_neg hc]
+      have : g[c]? = none := by simp [hc]
+      rw [this]
+  · rw [if_neg e]
+
+theorem sc_walkCells (u sv : VV) (hu : isSC u = false) (hs : isSC sv = true) :
+    ∀ (cells : List Nat) (g : Array VV), SameClass g (walkCells u sv g cells)
+  | [], g => SameClass.refl g
+  | c :: cs, g => by
+    unfold walkCells
+    by_cases h1 : g.getD c .undef = .undef
+    · rw [if_pos h1]
+      exact (sc_set g c u (by rw [hu, h1]; rfl)).trans (sc_walkCells u sv hu hs cs _)
+    · rw [if_neg h1]
+      by_cases h2 : g.getD c .undef = .surf
+      · rw [if_pos h2]; exact sc_set g c sv (by rw [hs, h2]; rfl)
+      · rw [if_neg h2]; exact SameClass.refl g
+
+theorem sc_walks (ni nj : Nat) (u sv : VV) (hu : isSC u = false) (hs : isSC sv = true) (g : Array VV) (p : Nat × Nat) :
+    SameClass g (walks ni nj u sv g p) := by
+  unfold walks
+  generalize walkLists ni nj p.1 p.2 = ls
+  induction ls generalizing g with
+  | nil => exact SameClass.refl g
+  | cons l ls ih => rw [List.foldl_cons]; exact (sc_walkCells u sv hu hs l g).trans (ih _)
+
+theorem sc_propCell (ni nj : Nat) (toWalk toSet : VV) (surfWalk : Option VV) (sSet : VV)
+    (h1 : isSC toWalk = false) (h2 : isSC toSet = false) (h3 : isSC sSet = true) (st : PSt) (p : Nat × Nat) :
+    SameClass st.g (propCell ni nj toWalk toSet surfWalk sSet st p).g := by
+  unfold propCell
+  simp only []
+  by_cases hv : st.g.getD (idx ni p.1 p.2) .undef = toWalk
+  · rw [if_pos hv]
+    exact (sc_set st.g _ toSet (by rw [h2, hv, h1])).trans (sc_walks ni nj toWalk sSet h1 h3 _ p)
+  · rw [if_neg hv]
+    by_cases hs : some (st.g.getD (idx ni p.1 p.2) .undef) ≠ surfWalk
+    · rw [if_pos hs]; exact SameClass.refl _
+    · rw [if_neg hs]; exact sc_walks ni nj toWalk sSet h1 h3 _ p
+
+theorem sc_sweep (ni nj : Nat) (toWalk toSet : VV) (surfWalk : Option VV) (sSet : VV)
+    (h1 : isSC toWalk = false) (h2 : isSC toSet = false) (h3 : isSC sSet = true) (g : Array VV) (once : Bool) :
+    SameClass g (sweep ni nj toWalk toSet surfWalk sSet g once).g := by
+  unfold sweep
+  generalize cellsIn 0 0 ni nj = l
+  have gen : ∀ (l : List (Nat × Nat)) (st : PSt), SameClass st.g (l.foldl (propCell ni nj toWalk toSet surfWalk sSet) st).g := by
+    intro l
+    induction l with
+    | nil => intro st; exact SameClass.refl _
+    | cons p l ih => intro st; rw [List.foldl_cons]; exact (sc_propCell ni nj toWalk toSet surfWalk sSet h1 h2 h3 st p).trans (ih _)
+  exact gen l ⟨g, 0, once⟩
+
+theorem sc_propagate (ni nj : Nat) (toWalk toSet : VV) (surfWalk : Option VV) (sSet : VV)
+    (h1 : isSC toWalk = false) (h2 : isSC toSet = false) (h3 : isSC sSet = true) :
+    ∀ (fuel : Nat) (g : Array VV) (once : Bool), SameClass g (propagate ni nj toWalk toSet surfWalk sSet fuel g once).1
+  | 0, g, _ => SameClass.refl g
+  | fuel + 1, g, once => by
+    unfold propagate
+    simp only []
+    split_ifs
+    · exact sc_sweep ni nj toWalk toSet surfWalk sSet h1 h2 h3 g once
+    · exact (sc_sweep ni nj toWalk toSet surfWalk sSet h1 h2 h3 g once).trans (sc_propagate ni nj toWalk toSet surfWalk sSet h1 h2 h3 fuel _ _)
+
+theorem sc_cavityLoop (ni nj : Nat) : ∀ (fuel : Nat) (g : Array VV), SameClass g (cavityLoop ni nj fuel g).1
+  | 0, g => SameClass.refl g
+  | fuel + 1, g => by
+    unfold cavityLoop
+    simp only []
+    have a := sc_propagate ni nj .inWalk .inside (some .surfWalk1) .surfWalk2 rfl rfl rfl (ni * nj + 1) g false
+    split_ifs
+    · exact a
+    · exact a
+    · exact a.trans (sc_propagate ni nj .outWalk .outside (some .surfWalk2) .surfWalk1 rfl rfl rfl (ni * nj + 1) _ false)
+    · exact a.trans (sc_propagate ni nj .outWalk .outside (some .surfWalk2) .surfWalk1 rfl rfl rfl (ni * nj + 1) _ false)
+    · exact (a.trans (sc_propagate ni nj .outWalk .outside (some .surfWalk2) .surfWalk1 rfl rfl rfl (ni * nj + 1) _ false)).trans
+        (sc_cavityLoop ni nj fuel _)
+
+theorem sc_markOutside (ni : Nat) (g : Array VV) (i0 j0 i1 j1 : Nat) : SameClass g (markOutside ni g i0 j0 i1 j1) := by
+  unfold markOutside
+  generalize cellsIn i0 j0 i1 j1 = l
+  induction l generalizing g with
+  | nil => exact SameClass.refl g
+  | cons c l ih =>
+    rw [List.foldl_cons]
+    by_cases h : g.getD (idx ni c.1 c.2) .undef = .undef
+    · rw [if_pos h]; exact (sc_set g _ .outWalk (by rw [h]; rfl)).trans (ih _)
+    · rw [if_neg h]; exact ih _
+
+theorem sc_markBorder (ni nj : Nat) (g : Array VV) : SameClass g (markBorder ni nj g) := by
+  unfold markBorder
+  exact (((sc_markOutside ni g _ _ _ _).trans (sc_markOutside ni _ _ _ _ _)).trans (sc_markOutside ni _ _ _ _ _)).trans
+    (sc_markOutside ni _ _ _ _ _)
+
+/-- **`detect_cavities`: the fill never changes which cells are surface cells**, and turns every one of them back into
+`PrimitiveOnSurface` at the end -/
+theorem fill_cav_surf_iff (cfg : Cfg) (hflood : cfg.flood = true) (hcav : cfg.detectCavities = true) (ni nj : Nat)
+    (g : Array VV) (k : Nat) :
+    (fill cfg ni nj g).1.getD k .undef = .surf ↔ isSC (g.getD k .undef) = true := by
+  have e : fill cfg ni nj g =
+      ((cavityLoop ni nj (ni * nj + 1) (propagate ni nj .outWalk .outside none .surfWalk1 (ni * nj + 1) (markBorder ni nj g) false).1).1.map
+          (fun v => if v = .surfWalk1 ∨ v = .surfWalk2 ∨ v = .surfNoWalk then .surf else v),
+        (propagate ni nj .outWalk .outside none .surfWalk1 (ni * nj + 1) (markBorder ni nj g) false).2.2 &&
+        (cavityLoop ni nj (ni * nj + 1) (propagate ni nj .outWalk .outside none .surfWalk1 (ni * nj + 1) (markBorder ni nj g) false).1).2) := by
+    unfold fill; simp [hflood, hcav]
+  rw [e]
+  simp only []
+  have sc := ((sc_markBorder ni nj g).trans
+    (sc_propagate ni nj .outWalk .outside none .surfWalk1 rfl rfl rfl (ni * nj + 1) (markBorder ni nj g) false)).trans
+    (sc_cavityLoop ni nj (ni * nj + 1) _)
+  rw [← sc.2 k]
+  generalize (cavityLoop ni nj (ni * nj + 1) (propagate ni nj .outWalk .outside none .surfWalk1 (ni * nj + 1) (markBorder ni nj g) false).1).1 = G
+  simp only [Array.getD_eq_getD_getElem?, Array.getElem?_map]
+  cases hG : G[k]? with
+  | none => simp [isSC]
+  | some v => cases v <;> simp [isSC]
+
+/-! ### fuel of the `detect_cavities` alternation -/
+
+theorem cnt_two_le (a b : VV) (hab : a ≠ b) (g : Array VV) : cnt a g + cnt b g ≤ g.size := by
+  unfold cnt
+  have : ∀ l : List VV, l.count a + l.count b ≤ l.length := by
+    intro l
+    induction l with
+    | nil => simp
+    | cons x l ih =>
+      simp only [List.count_cons, List.length_cons]
+      by_cases h1 : x = a
+      · subst h1
+        have : ¬ (x == b) = true := by simpa using hab
+        simp [this]; omega
+      · have h1' : ¬ (x == a) = true := by simpa using h1
+        by_cases h2 : x = b
+        · subst h2; simp [h1']; omega
+        · have h2' : ¬ (x == b) = true := by simpa using h2
+          simp [h1', h2']; omega
+  simpa using this g.toList
+
+theorem size_walkCells (u sv : VV) : ∀ (cells : List Nat) (g : Array VV), (walkCells u sv g cells).size = g.size
+  | [], g => rfl
+  | c :: cs, g => by
+    unfold walkCells
+    split_ifs
+    · rw [size_walkCells u sv cs]; simp
+    · simp
+    · rfl
+
+theorem size_walks (ni nj : Nat) (u sv : VV) (g : Array VV) (p : Nat × Nat) : (walks ni nj u sv g p).size = g.size := by
+  unfold walks
+  generalize walkLists ni nj p.1 p.2 = ls
+  induction ls generalizing g with
+  | nil => rfl
+  | cons l ls ih => rw [List.foldl_cons, ih, size_walkCells]
+
+section
+variable (ni nj : Nat) (toWalk toSet : VV) (surfWalk : Option VV) (sSet : VV)
+
+/-- a value the pass neither reads nor writes keeps its number of cells -/
+theorem cnt_propCell_other (w : VV) (hw1 : w ≠ toWalk) (hw2 : w ≠ toSet) (hw3 : w ≠ sSet) (hw0 : w ≠ .undef) (hw8 : w ≠ .surf)
+    (st : PSt) (p : Nat × Nat) (hp : idx ni p.1 p.2 < st.g.size) :
+    cnt w (propCell ni nj toWalk toSet surfWalk sSet st p).g = cnt w st.g := by
+  unfold propCell
+  simp only []
+  by_cases hv : st.g.getD (idx ni p.1 p.2) .undef = toWalk
+  · rw [if_pos hv]
+    simp only []
+    obtain ⟨a1, _⟩ := cnt_walks ni nj w toWalk sSet hw1 hw3 hw0 hw8 (st.g.setIfInBounds (idx ni p.1 p.2) toSet) p
+    have := cnt_set w toSet st.g _ hp
+    rw [hv, if_neg (Ne.symm hw1), if_neg (Ne.symm hw2)] at this
+    omega
+  · rw [if_neg hv]
+    by_cases hs : some (st.g.getD (idx ni p.1 p.2) .undef) ≠ surfWalk
+    · rw [if_pos hs]
+    · rw [if_neg hs]
+      simp only []
+      exact (cnt_walks ni nj w toWalk sSet hw1 hw3 hw0 hw8 st.g p).1
+
+theorem propCell_size (st : PSt) (p : Nat × Nat) :
+    (propCell ni nj toWalk toSet surfWalk sSet st p).g.size = st.g.size := by
+  unfold propCell
+  simp only []
+  split_ifs
+  · simp only []
+    rw [(size_walks ni nj toWalk sSet _ p)]; simp
+  · rfl
+  · exact size_walks ni nj toWalk sSet _ p
+
+theorem cnt_foldl_other (w : VV) (hw1 : w ≠ toWalk) (hw2 : w ≠ toSet) (hw3 : w ≠ sSet) (hw0 : w ≠ .undef) (hw8 : w ≠ .surf) :
+    ∀ (l : List (Nat × Nat)) (st : PSt), st.g.size = ni * nj → (∀ p ∈ l, p.1 < ni ∧ p.2 < nj) →
+    cnt w (l.foldl (propCell ni nj toWalk toSet surfWalk sSet) st).g = cnt w st.g
+  | [], _, _, _ => rfl
+  | p :: l, st, hs, hl => by
+    rw [List.foldl_cons]
+    have hp := hl p List.mem_cons_self
+    rw [cnt_foldl_other w hw1 hw2 hw3 hw0 hw8 l _ (by rw [propCell_size]; exact hs) (fun q hq => hl q (List.mem_cons_of_mem _ hq))]
+    exact cnt_propCell_other ni nj toWalk toSet surfWalk sSet w hw1 hw2 hw3 hw0 hw8 st p (by rw [hs]; exact idx_lt hp.1 hp.2)
+
+theorem cnt_sweep_other (w : VV) (hw1 : w ≠ toWalk) (hw2 : w ≠ toSet) (hw3 : w ≠ sSet) (hw0 : w ≠ .undef) (hw8 : w ≠ .surf)
+    (g : Array VV) (once : Bool) (hs : g.size = ni * nj) :
+    cnt w (sweep ni nj toWalk toSet surfWalk sSet g once).g = cnt w g := by
+  unfold sweep
+  exact cnt_foldl_other ni nj toWalk toSet surfWalk sSet w hw1 hw2 hw3 hw0 hw8 (cellsIn 0 0 ni nj) ⟨g, 0, once⟩ hs
+    (fun p hp => ⟨(mem_cellsIn.mp hp).1.2, (mem_cellsIn.mp hp).2.2⟩)
+
+theorem propCell_walked_mono (st : PSt) (p : Nat × Nat) :
+    st.walked ≤ (propCell ni nj toWalk toSet surfWalk sSet st p).walked := by
+  unfold propCell; simp only []; split_ifs <;> simp
+
+theorem propCell_once (st : PSt) (p : Nat × Nat) (h : (propCell ni nj toWalk toSet surfWalk sSet st p).once = true) :
+    st.once = true ∨ st.walked < (propCell ni nj toWalk toSet surfWalk sSet st p).walked := by
+  unfold propCell at h ⊢
+  simp only [] at h ⊢
+  split_ifs at h ⊢
+  · right; simp
+  · left; exact h
+  · left; exact h
+
+theorem foldl_walked_mono : ∀ (l : List (Nat × Nat)) (st : PSt),
+    st.walked ≤ (l.foldl (propCell ni nj toWalk toSet surfWalk sSet) st).walked
+  | [], _ => le_refl _
+  | p :: l, st => by
+    rw [List.foldl_cons]
+    exact le_trans (propCell_walked_mono ni nj toWalk toSet surfWalk sSet st p) (foldl_walked_mono l _)
+
+/-- `walked_at_least_once` can only become true in a sweep that walked a voxel -/
+theorem foldl_once : ∀ (l : List (Nat × Nat)) (st : PSt),
+    (l.foldl (propCell ni nj toWalk toSet surfWalk sSet) st).once = true →
+      st.once = true ∨ st.walked < (l.foldl (propCell ni nj toWalk toSet surfWalk sSet) st).walked
+  | [], st, h => Or.inl h
+  | p :: l, st, h => by
+    rw [List.foldl_cons] at h ⊢
+    rcases foldl_once l _ h with h1 | h1
+    · rcases propCell_once ni nj toWalk toSet surfWalk sSet st p h1 with h2 | h2
+      · left; exact h2
+      · right; exact lt_of_lt_of_le h2 (foldl_walked_mono ni nj toWalk toSet surfWalk sSet l _)
+    · right; exact lt_of_le_of_lt (propCell_walked_mono ni nj toWalk toSet surfWalk sSet st p) h1
+
+/-- `propagate_values`: a value the pass neither reads nor writes keeps its count; the count of `toSet` never decreases and
+increases if the pass reports `walked_at_least_once` -/
+theorem propagate_counts (h1 : toSet ≠ toWalk) (h2 : toSet ≠ sSet) (h0 : toSet ≠ .undef) (h8 : toSet ≠ .surf)
+    (w : VV) (hw1 : w ≠ toWalk) (hw2 : w ≠ toSet) (hw3 : w ≠ sSet) (hw0 : w ≠ .undef) (hw8 : w ≠ .surf) :
+    ∀ (fuel : Nat) (g : Array VV) (once : Bool), g.size = ni * nj →
+    cnt w (propagate ni nj toWalk toSet surfWalk sSet fuel g once).1 = cnt w g ∧
+    cnt toSet g ≤ cnt toSet (propagate ni nj toWalk toSet surfWalk sSet fuel g once).1 ∧
+    ((propagate ni nj toWalk toSet surfWalk sSet fuel g once).2.1 = true → once = true ∨
+      cnt toSet g < cnt toSet (propagate ni nj toWalk toSet surfWalk sSet fuel g once).1)
+  | 0, g, once, _ => ⟨rfl, le_refl _, fun h => Or.inl h⟩
+  | fuel + 1, g, once, hs => by
+    unfold propagate
+    simp only []
+    obtain ⟨a1, a2⟩ := cnt_sweep ni nj toWalk toSet surfWalk sSet h1 h2 h0 h8 g once hs
+    have a3 := cnt_sweep_other ni nj toWalk toSet surfWalk sSet w hw1 hw2 hw3 hw0 hw8 g once hs
+    have a4 : (sweep ni nj toWalk toSet surfWalk sSet g once).once = true → once = true ∨
+        0 < (sweep ni nj toWalk toSet surfWalk sSet g once).walked := by
+      intro h; unfold sweep at h ⊢
+      exact foldl_once ni nj toWalk toSet surfWalk sSet (cellsIn 0 0 ni nj) ⟨g, 0, once⟩ h
+    by_cases hw : (sweep ni nj toWalk toSet surfWalk sSet g once).walked = 0
+    · rw [if_pos hw]
+      simp only []
+      refine ⟨a3, by omega, fun h => ?_⟩
+      rcases a4 h with x | x
+      · exact Or.inl x
+      · omega
+    · rw [if_neg hw]
+      obtain ⟨b1, b2, b3⟩ := propagate_counts h1 h2 h0 h8 w hw1 hw2 hw3 hw0 hw8 fuel
+        (sweep ni nj toWalk toSet surfWalk sSet g once).g (sweep ni nj toWalk toSet surfWalk sSet g once).once a2
+      refine ⟨by rw [b1, a3], by omega, fun h => ?_⟩
+      right; omega
+end
+
+/-- **the fuel of the `detect_cavities` alternation suffices**: every completed inside/outside round turns at least two
+cells into their final `inside`/`outside` value -/
+theorem cavityLoop_fuel (ni nj : Nat) : ∀ (fuel : Nat) (g : Array VV), g.size = ni * nj →
+    g.size - (cnt .inside g + cnt .outside g) < fuel → (cavityLoop ni nj fuel g).2 = true
+  | 0, g, _, hf => by omega
+  | fuel + 1, g, hs, hf => by
+    unfold cavityLoop
+    simp only []
+    obtain ⟨f1, f1s⟩ := propagate_fuel ni nj .inWalk .inside (some .surfWalk1) .surfWalk2 (by decide) (by decide) (by decide) (by decide)
+      (ni * nj + 1) g false hs (by rw [hs]; omega)
+    obtain ⟨c1, c2, c3⟩ := propagate_counts ni nj .inWalk .inside (some .surfWalk1) .surfWalk2 (by decide) (by decide) (by decide) (by decide)
+      .outside (by decide) (by decide) (by decide) (by decide) (by decide) (ni * nj + 1) g false hs
+    rw [f1]
+    simp only [Bool.not_true, Bool.false_eq_true, if_false]
+    by_cases ho : (propagate ni nj .inWalk .inside (some .surfWalk1) .surfWalk2 (ni * nj + 1) g false).2.1 = true
+    · rw [ho]
+      simp only [Bool.not_true, Bool.false_eq_true, if_false]
+      set g1 := (propagate ni nj .inWalk .inside (some .surfWalk1) .surfWalk2 (ni * nj + 1) g false).1 with hg1
+      obtain ⟨f2, f2s⟩ := propagate_fuel ni nj .outWalk .outside (some .surfWalk2) .surfWalk1 (by decide) (by decide) (by decide) (by decide)
+        (ni * nj + 1) g1 false f1s (by rw [f1s]; omega)
+      obtain ⟨d1, d2, d3⟩ := propagate_counts ni nj .outWalk .outside (some .surfWalk2) .surfWalk1 (by decide) (by decide) (by decide) (by decide)
+        .inside (by decide) (by decide) (by decide) (by decide) (by decide) (ni * nj + 1) g1 false f1s
+      rw [f2]
+      simp only [Bool.not_true, Bool.false_eq_true, if_false]
+      by_cases ho2 : (propagate ni nj .outWalk .outside (some .surfWalk2) .surfWalk1 (ni * nj + 1) g1 false).2.1 = true
+      · rw [ho2]
+        simp only [Bool.not_true, Bool.false_eq_true, if_false]
+        set g2 := (propagate ni nj .outWalk .outside (some .surfWalk2) .surfWalk1 (ni * nj + 1) g1 false).1 with hg2
+        have hle := cnt_two_le .inside .outside (by decide) g2
+        have e1 : cnt .inside g < cnt .inside g1 := by
+          rcases c3 ho with x | x
+          · cases x
+          · exact x
+        have e2 : cnt .outside g1 < cnt .outside g2 := by
+          rcases d3 ho2 with x | x
+          · cases x
+          · exact x
+        apply cavityLoop_fuel ni nj fuel g2 f2s
+        rw [f2s] at hle ⊢
+        rw [hs] at hf
+        omega
+      · have : (propagate ni nj .outWalk .outside (some .surfWalk2) .surfWalk1 (ni * nj + 1) g1 false).2.1 = false := by simpa using ho2
+        rw [this]; simp
+    · have : (propagate ni nj .inWalk .inside (some .surfWalk1) .surfWalk2 (ni * nj + 1) g false).2.1 = false := by simpa using ho
+      rw [this]; simp
+
+/-- **every loop of the fill pass stays within its fuel**, in every `FillMode` -/
+theorem fill_fuel_all (cfg : Cfg) (ni nj : Nat) (g : Array VV) (hs : g.size = ni * nj) : (fill cfg ni nj g).2 = true := by
+  unfold fill
+  by_cases hf : cfg.flood = true
+  · have hsb : (markBorder ni nj g).size = ni * nj := by rw [(sc_markBorder ni nj g).1]; exact hs
+    by_cases hc : cfg.detectCavities = true
+    · simp only [hf, hc, Bool.not_true, Bool.false_eq_true, if_false, if_true]
+      obtain ⟨f0, f0s⟩ := propagate_fuel ni nj .outWalk .outside none .surfWalk1 (by decide) (by decide) (by decide) (by decide)
+        (ni * nj + 1) (markBorder ni nj g) false hsb (by rw [hsb]; omega)
+      rw [f0, cavityLoop_fuel ni nj (ni * nj + 1) _ f0s (by rw [f0s]; omega)]
+      rfl
+    · have hc' : cfg.detectCavities = false := by simpa using hc
+      simp only [hf, hc', Bool.not_true, Bool.false_eq_true, if_false]
+      exact (propagate_fuel ni nj .outWalk .outside none .surf (by decide) (by decide) (by decide) (by decide)
+        (ni * nj + 1) (markBorder ni nj g) false hsb (by rw [hsb]; omega)).1
+  · have hf' : cfg.flood = false := by simpa using hf
+    simp [hf']
+
 end C18
